@@ -36,6 +36,9 @@ type features struct {
 	// memBaseWrittenRecently: a load/store whose base register was written
 	// within the 10 executed instructions before it
 	memBaseWrittenRecently bool
+	// ringOverflow: one register is written more than 10 times (the rename
+	// ring length) without a conditional branch (commit point) in between
+	ringOverflow bool
 	// loadBeforeRedirect: a load is followed within 16 executed instructions by a redirect
 	loadBeforeRedirect bool
 	// memBeforeRedirect: any load/store followed within 24 executed instructions by a redirect
@@ -96,6 +99,7 @@ func featuresOf(c *core.Case) *features {
 		before map[isa.Reg]bool
 	}
 	var recentBranches []br
+	writesSinceCommit := map[isa.Reg]int{}
 	for i, st := range ref.Trace {
 		in := p.Insts[st.Idx]
 		f.ops[in.Op]++
@@ -192,6 +196,7 @@ func featuresOf(c *core.Case) *features {
 			}
 		}
 		if in.Op.IsCondBranch() {
+			writesSinceCommit = map[isa.Reg]int{}
 			b := br{pos: i, before: map[isa.Reg]bool{}}
 			for r, pos := range lastWrite {
 				if i-pos <= 10 {
@@ -213,6 +218,10 @@ func featuresOf(c *core.Case) *features {
 			recentBranches = append(recentBranches, b)
 		}
 		if rd, w := in.Writes(); w && rd != isa.Zero {
+			writesSinceCommit[rd]++
+			if writesSinceCommit[rd] > 10 {
+				f.ringOverflow = true
+			}
 			if pos, ok := lastLoadDest[rd]; ok && i-pos <= 16 && pos != i {
 				f.loadDestOverwritten = true
 			}
